@@ -1,14 +1,33 @@
-(* C20 property theorems: statements only, each closed by `exact`. *)
+(* C20 property theorems: statements only, each closed by `exact`.
+   Readers terminate on every input and report bad data as a parse error.
+
+   Models: Gen/ReaderLoops.v (regenerated from the source on every run), Model/C20Model.v (progress
+   rule; PHYLIP and FASTA readers at character level), Model/C20Nexus.v (NEXUS control skeleton at
+   token level on C02's Model/Tokenizer.v and Model/Newick.v).
+   Python runtime functions (isspace, digit values, lower/upper, the state-alphabet symbol table,
+   float()) are universally quantified parameters of the theorems.
+
+   Sites where the CURRENT library violates the property are modelled in both forms (DESIGN 5.2):
+   the full statement is proved for the repaired form and refuted (`_refuted`, concrete witness) for
+   the current form; `_partial` is what holds for both. *)
 From Coq Require Import String ZArith List Bool.
-From DV Require Import Model.PyPrims Gen.ReaderLoops Model.C20Model Proofs.C20Proofs.
+From DV Require Import Model.PyPrims Gen.ReaderLoops Model.Tokenizer Model.Newick Model.C20Model Model.C20Nexus
+                       Proofs.C20Proofs Proofs.C20NexusProofs.
 Import ListNotations.
 Close Scope string_scope.
 Open Scope list_scope.
 Open Scope Z_scope.
 
-(* Every reader loop of the CURRENT source (Gen/ReaderLoops.v is regenerated on every run) satisfies
-   the progress rule `loop_ok` (C20Model.v: R0-R3), or is on the explicit, justified allow-list, or
-   is one of the recorded defect sites. *)
+(* ========================================================================================== *)
+(* 1. every reader loop makes progress                                                         *)
+(* ========================================================================================== *)
+
+(* Every `while` (and `for .. in itertools.count()`) of tokenizer.py, nexusprocessing.py,
+   newickreader.py, nexusreader.py, nexusyielder.py in the CURRENT source satisfies the progress rule
+   `loop_ok` (R0-R3 in C20Model.v), or is on the explicit allow-list (4 loops, each justified in
+   C20Model.v and pinned to the loop's AST digest), or is one of the recorded defect sites.
+   Changing `require_next_token` to `next_token` in a statement loop, or adding an unguarded loop,
+   makes this false. *)
 Theorem loop_progress :
   forallb (fun l => loop_ok l || loop_in allow_list l || loop_in known_defect_loops l) reader_loops = true.
 Proof. exact loop_progress_l. Qed.
@@ -19,14 +38,159 @@ Theorem loop_progress_lifted : forall l, In l reader_loops ->
 Proof. exact loop_progress_lifted_l. Qed.
 Print Assumptions loop_progress_lifted.
 
-(* The loops that are neither mechanically discharged nor allow-listed are exactly the recorded
-   defect sites still present in the source (both sides become [] once they are repaired). *)
+(* The loops that are neither discharged mechanically nor allow-listed are exactly the recorded
+   defect sites still present in the source (both sides are [] once they are repaired): no loop is
+   passed silently, and no allow-list entry shadows a loop the rule discharges anyway. *)
 Theorem loop_defects_exact :
   filter (fun l => negb (loop_ok l || loop_in allow_list l)) reader_loops
-  = filter (loop_in known_defect_loops) reader_loops.
-Proof. exact loop_defects_exact_l. Qed.
+  = filter (loop_in known_defect_loops) reader_loops
+  /\ forallb (fun l => negb (loop_in allow_list l && loop_ok l)) reader_loops = true
+  /\ excluded_loops = [].
+Proof. exact (conj loop_defects_exact_l (conj allow_list_needed_l excluded_loops_none_l)). Qed.
 Print Assumptions loop_defects_exact.
 
+(* the only self-recursive functions of the reader modules are the two justified in C20Model.v *)
 Theorem recursion_sites_known : forallb recursion_known reader_recursions = true.
 Proof. exact recursion_sites_known_l. Qed.
 Print Assumptions recursion_sites_known.
+
+(* ========================================================================================== *)
+(* 2. PHYLIP                                                                                   *)
+(* ========================================================================================== *)
+
+(* For EVERY character list and every option setting the PHYLIP reader model terminates (it is
+   structurally recursive; no fuel) and ends in: a matrix with exactly the declared number of rows
+   (and, on the repaired form, the declared number of columns in every row) - or DataParseError -
+   or, only on the current form of the `%d` site, TypeError.  Never Hang / AttributeError /
+   IndexError (the positional lookup taxon_namespace[paged_row] of the interleaved reader is always
+   in range) / KeyError / ValueError. *)
+Theorem phylip_reader_total :
+  forall (isspace : Z -> bool) (dval : Z -> option Z) (lower : str -> str) (sym : Z -> option Z)
+         (o : popts) (text : str),
+  match phylip_read isspace dval lower sym o text with
+  | Ok rows =>
+      exists ntax nchar,
+        phylip_declared isspace dval text = Some (ntax, nchar)
+        /\ zlen rows = ntax
+        /\ (po_fix_dims o = true -> Forall (fun r => zlen (snd r) = nchar) rows)
+  | Err e => e = ParseErr \/ (po_fix_fmt o = false /\ e = TypeErr)
+  | OutOfFuel => False
+  end.
+Proof. exact phylip_reader_total_l. Qed.
+Print Assumptions phylip_reader_total.
+
+(* declared-versus-found dimensions: refuted for the current form (a short last row is accepted) *)
+Theorem dims_consistent_refuted :
+  exists text rows ntax nchar,
+    phylip_read py_isspace ascii_dval ascii_lower dna4 popts_default text = Ok rows
+    /\ phylip_declared py_isspace ascii_dval text = Some (ntax, nchar)
+    /\ Exists (fun r => zlen (snd r) <> nchar) rows.
+Proof. exact phylip_dims_refuted_l. Qed.
+Print Assumptions dims_consistent_refuted.
+
+(* "never TypeError": refuted for the current form (a repeated complete sequence) *)
+Theorem phylip_reader_total_refuted :
+  exists text, phylip_read py_isspace ascii_dval ascii_lower dna4 popts_default text = Err TypeErr.
+Proof. exact phylip_typeerr_refuted_l. Qed.
+Print Assumptions phylip_reader_total_refuted.
+
+(* ========================================================================================== *)
+(* 3. FASTA                                                                                    *)
+(* ========================================================================================== *)
+
+(* For EVERY character list: a matrix whose sequence names are pairwise distinct under the
+   namespace's label matching, or DataParseError.  (FASTA declares no dimensions.) *)
+Theorem fasta_reader_total :
+  forall (isspace : Z -> bool) (lower : str -> str) (sym : Z -> option Z) (cs : bool) (text : str),
+  match fasta_read isspace lower sym cs text with
+  | Ok rows => NoDup (map (fun r : row => if cs then fst r else lower (fst r)) rows)
+  | Err e => e = ParseErr
+  | OutOfFuel => False
+  end.
+Proof. exact fasta_reader_total_l. Qed.
+Print Assumptions fasta_reader_total.
+
+(* ========================================================================================== *)
+(* 4. NEXUS control skeleton                                                                   *)
+(* ========================================================================================== *)
+
+(* nexus_skeleton_total - "for every text the skeleton ends in Ok or ParseErr within the budget
+   2*|text| + 16" - is REFUTED for the current form of the reader: *)
+
+(* it hangs on two complete documents *)
+Theorem nexus_skeleton_total_refuted_hang :
+  cls (run nfix_none w_link) = Some Hang /\ cls (run nfix_none w_positions) = Some Hang.
+Proof. exact nexus_hang_witnesses_l. Qed.
+Print Assumptions nexus_skeleton_total_refuted_hang.
+
+(* the LINK loop genuinely diverges: with ANY budget, from any state, on any token other than
+   ";", TAXA, CHARACTERS *)
+Theorem nexus_link_loop_diverges :
+  forall (upper : str -> str) (fuel : nat) tok st lt lc,
+  tok_is tok ";" = false -> tok_is tok "TAXA" = false -> tok_is tok "CHARACTERS" = false ->
+  link_loop upper nfix_none fuel tok st lt lc = RFuel.
+Proof. exact link_loop_diverges. Qed.
+Print Assumptions nexus_link_loop_diverges.
+
+(* it raises AttributeError / TypeError / ValueError / a leaked internal exception *)
+Theorem nexus_skeleton_total_refuted_internal_errors :
+  cls (run nfix_none w_empty) = Some AttrErr
+  /\ cls (run nfix_none w_taxlabels_eof) = Some AttrErr
+  /\ cls (run nfix_none w_taxlabels_nodims) = Some TypeErr
+  /\ cls (run nfix_none w_tree_eof) = Some AttrErr
+  /\ cls (run nfix_none w_untitled) = Some AttrErr
+  /\ cls (run nfix_none w_blockterm) = Some OtherErr
+  /\ cls (run nfix_none w_datatype) = Some TypeErr
+  /\ cls (run nfix_none w_charsetdup) = Some ValueErr
+  /\ cls (run nfix_none w_step0) = Some ValueErr.
+Proof. exact nexus_internal_error_witnesses_l. Qed.
+Print Assumptions nexus_skeleton_total_refuted_internal_errors.
+
+(* and it returns a matrix with fewer rows than NTAX declares for a document cut inside MATRIX *)
+Theorem nexus_dims_consistent_refuted :
+  match run nfix_none w_truncmatrix with
+  | ROk st => match n_ntax st, n_mats st with
+              | Some ntax, [m] => (Z.of_nat (length (m_rows m)) <? ntax) = true
+              | _, _ => False
+              end
+  | _ => False
+  end.
+Proof. exact nexus_truncated_matrix_witness_l. Qed.
+Print Assumptions nexus_dims_consistent_refuted.
+
+(* On the repaired form the same documents are parse errors (or, for the two complete documents
+   `LINK FOO = x;` and TAXLABELS without DIMENSIONS, are read), and every prefix of a valid document
+   with TAXA, CHARACTERS, TREES+TRANSLATE and SETS blocks is read or is a parse error, which is false
+   on the current form (crash-point quantifier, one concrete document; the harness checks the same
+   for generated documents of every block structure). *)
+Theorem nexus_repaired_examples :
+  forallb (fun w => match cls (run nfix_all w) with Some ParseErr => true | _ => false end)
+          [w_positions; w_step0; w_empty; w_taxlabels_eof; w_tree_eof; w_untitled; w_blockterm;
+           w_truncmatrix; w_charsetdup] = true
+  /\ cls (run nfix_all w_link) = None
+  /\ cls (run nfix_all w_taxlabels_nodims) = None
+  /\ cls (run nfix_all w_valid) = None /\ cls (run nfix_none w_valid) = None.
+Proof. exact nexus_witnesses_repaired_l. Qed.
+Print Assumptions nexus_repaired_examples.
+
+Theorem prefix_closed_errors_example :
+  prefixes_ok nfix_all w_valid = true /\ prefixes_ok nfix_none w_valid = false.
+Proof. exact nexus_prefix_closed_example_l. Qed.
+Print Assumptions prefix_closed_errors_example.
+
+(* nexus_skeleton_total_partial: the scanning loop every block goes through,
+   NexusTokenizer.skip_to_semicolon (guards and fetch primitive taken from the generated loop
+   record), is total from EVERY tokenizer state: with a budget above the number of tokens left + 2
+   it never runs out, never adds tokens, and keeps the stream well-formed.
+   (The full statement, for the whole skeleton on the repaired form, is not proved; see the report.) *)
+Theorem nexus_skeleton_total_partial :
+  forall (F : nat) (st : nstate),
+  stream_ok st -> (n_left st + 2 < F)%nat ->
+  match skip_to_semicolon F st with
+  | ROk st' => stream_ok st' /\ (n_left st' <= n_left st)%nat
+  | RErr _ => True
+  | RFuel => False
+  | RUnm => False
+  end.
+Proof. exact skip_to_semicolon_total. Qed.
+Print Assumptions nexus_skeleton_total_partial.
